@@ -1,5 +1,6 @@
 import Skc.Model.Anomaliser
 import Skc.Lemmas.ConvCp
+import Skc.Props.C04
 
 /-! # C17 — StatThresholdAnomaliser flags exactly the out-of-range segments
 
@@ -32,6 +33,58 @@ theorem anomaliser_output_sublist (stat : Nat → Nat → α) (lo hi : α)
     (statAnoms stat lo hi cps n).Sublist (segmentsFrom 0 cps n) := by
   rw [anomaliser_flags_out_of_range_segments stat lo hi cps n hn h]
   exact List.filter_sublist
+
+/-- the segments delimited by valid changepoints are consecutive, non-empty and inside `[s, n]` -/
+theorem segmentsFrom_wf : ∀ (cps : List Nat) (s n : Nat), cps.Pairwise (· < ·) →
+    (∀ c ∈ cps, s < c ∧ c < n) → s < n →
+    (segmentsFrom s cps n).Pairwise (fun a b => a.2 ≤ b.1) ∧
+      ∀ a ∈ segmentsFrom s cps n, s ≤ a.1 ∧ a.1 < a.2 ∧ a.2 ≤ n
+  | [], s, n, _, _, hsn => by
+    simp only [segmentsFrom, List.pairwise_singleton, List.mem_singleton, true_and]
+    intro a ha; subst ha; exact ⟨Nat.le_refl _, hsn, Nat.le_refl _⟩
+  | c :: cs, s, n, hp, hb, hsn => by
+    obtain ⟨hc1, hc2⟩ := hb c (by simp)
+    have hp' := (List.pairwise_cons.1 hp)
+    obtain ⟨ih1, ih2⟩ := segmentsFrom_wf cs c n hp'.2
+      (fun x hx => ⟨hp'.1 x hx, (hb x (by simp [hx])).2⟩) hc2
+    simp only [segmentsFrom]
+    refine ⟨List.pairwise_cons.2 ⟨fun b hb' => (ih2 b hb').1, ih1⟩, ?_⟩
+    intro a ha
+    rcases List.mem_cons.1 ha with rfl | ha
+    · exact ⟨Nat.le_refl _, hc1, Nat.le_of_lt hc2⟩
+    · obtain ⟨g1, g2, g3⟩ := ih2 a ha
+      exact ⟨by omega, g2, g3⟩
+
+/-- **C17 / C04**: the anomaliser's output is sorted, pairwise disjoint, and made of non-empty
+    intervals inside `[0, n]` -/
+theorem anomaliser_output_wellformed (stat : Nat → Nat → α) (lo hi : α)
+    (cps : List Nat) (n : Nat) (hn : 1 ≤ n) (h : ValidCps cps n) :
+    (statAnoms stat lo hi cps n).Pairwise (fun a b => a.2 ≤ b.1) ∧
+      ∀ a ∈ statAnoms stat lo hi cps n, a.1 < a.2 ∧ a.2 ≤ n := by
+  obtain ⟨w1, w2⟩ := segmentsFrom_wf cps 0 n h.1 (fun c hc => ⟨by have := (h.2 c hc).1; omega, (h.2 c hc).2⟩) (by omega)
+  have hsub := anomaliser_output_sublist stat lo hi cps n hn h
+  refine ⟨w1.sublist hsub, ?_⟩
+  intro a ha
+  exact (w2 a (hsub.subset ha)).2
+
+/-- **C17 composed with C02/C04**: the hypothesis "valid changepoints" is a theorem for the default
+    wrapped detector — PELT's output is strictly increasing inside `[1, n-1]` — so the anomaliser over
+    PELT flags exactly the out-of-range segments of PELT's segmentation, for every cost table with the
+    split inequality -/
+theorem anomaliser_over_pelt {β : Type} [AddCommGroup β] [LinearOrder β] [IsOrderedAddMonoid β]
+    (stat : Nat → Nat → α) (lo hi : α) (cost : Nat → Nat → β) (pen : β) (m n : Nat)
+    (hm : 1 ≤ m) (hn : 2 * m ≤ n) (hsplit : SplitIneq cost m n) :
+    let cps := (runPeltCode cost pen m n).2
+    ValidCps cps n ∧
+      statAnoms stat lo hi cps n = (segmentsFrom 0 cps n).filter (flagged stat lo hi) := by
+  intro cps
+  obtain ⟨h1, h2⟩ := pelt_changepoints_wellformed cost pen m n hm hn hsplit
+  have hv : ValidCps cps n := by
+    refine ⟨h1.imp (by intro a b h; omega), ?_⟩
+    intro c hc
+    have := h2 c hc
+    omega
+  exact ⟨hv, anomaliser_flags_out_of_range_segments stat lo hi cps n (by omega) hv⟩
 
 /-- a segment is flagged iff its statistic is out of range -/
 theorem flagged_iff (stat : Nat → Nat → α) (lo hi : α) (seg : Nat × Nat) :
